@@ -460,22 +460,22 @@ PROPS = {
             "assumptions": ["Go semantics of the emitted fragment (short variable declarations, if, calls, closures) is Exec.v's reading of the Go spec, validated by the runtime traces of every generated injector under every single-provider failure"]},
     "C04": {"theorems": ["C04_success", "C04_releases_everything", "C04_releases_once", "C04_dependents_released_first", "C04_nothing_released_early"], "engines": [eng_prog],
             "assumptions": ["Go semantics of the emitted fragment is Exec.v's reading of the Go spec, validated by runtime traces"]},
-    "C05": {"theorems": ["C05_never_picks", "C05_closure_spelled_out", "C05_conflict_is_real", "C05_conflict_is_reported", "C05_accepted_maps_well_formed"], "engines": [eng_synth, eng_prog, eng_multi], "assumptions": [SYNTH_NOTE]},
-    "C06": {"theorems": ["C06_missing_accepted", "C06_rejected_names_missing_accepted", "C06_accepted_is_complete_accepted"], "engines": [eng_synth, eng_prog, eng_multi, eng_forms], "assumptions": [SYNTH_NOTE, WF_NOTE]},
+    "C05": {"theorems": ["C05_never_picks", "C05_closure_spelled_out", "C05_conflict_is_real", "C05_conflict_is_reported", "C05_accepted_maps_well_formed"], "engines": [eng_synth, eng_prog, eng_multi, eng_layouts], "assumptions": [SYNTH_NOTE]},
+    "C06": {"theorems": ["C06_missing_accepted", "C06_rejected_names_missing_accepted", "C06_accepted_is_complete_accepted"], "engines": [eng_synth, eng_prog, eng_multi, eng_forms, eng_layouts], "assumptions": [SYNTH_NOTE, WF_NOTE]},
     "C07": {"theorems": ["C07_cycles_detected", "C07_only_cycle_errors", "C07_terminates", "C07_machine_refines_dfs", "C07_solve_terminates", "C07_checker_graph_covers_planner_graph", "C07_accepted_sets_acyclic_for_planner", "C07_linear_bound", "C07_cycles_detected_total", "C07_planner_linear_bound"],
             "engines": [eng_synth, eng_prog],
             "assumptions": [SYNTH_NOTE, "wall-clock behaviour is runtime, sampled on lattices/chains only"]},
     "C08": {"theorems": ["C08_used_exactly", "C08_chain_binding_reported_unused_refuted", "C08_unused_reported_exactly", "C08_called_is_used", "C08_used_have_source"], "engines": [eng_synth, eng_prog, eng_multi], "assumptions": [SYNTH_NOTE]},
-    "C09": {"theorems": ["C09_results", "C09_rejects", "C09_identical_types_rejected"], "engines": [eng_funcoutput, eng_prog],
+    "C09": {"theorems": ["C09_results", "C09_rejects", "C09_identical_types_rejected"], "engines": [eng_funcoutput, eng_prog, eng_forms],
             "assumptions": ["result kinds are abstracted to what funcOutput can distinguish (identity with error / func())"]},
     "C10": {"theorems": ["C10_regrouping_preserves_analysis", "C10_binding_order_refuted", "C10_analysis_order_independent", "C10_solve_depends_on_lookups_only", "C10_phase_order_independent", "C05_never_picks"], "engines": [eng_synth, eng_prog, eng_multi, eng_layouts], "assumptions": [SYNTH_NOTE]},
-    "C11": {"theorems": ["C11_bind_accepts", "C11_colocated", "C11_shared_instance", "C02_wiring_accepted"], "engines": [eng_synth, eng_prog, eng_forms, eng_front], "assumptions": [SYNTH_NOTE, "Go's method-set rule (types.Implements) is go/types' and is not modelled"]},
+    "C11": {"theorems": ["C11_bind_accepts", "C11_colocated", "C11_shared_instance", "C02_wiring_accepted"], "engines": [eng_synth, eng_prog, eng_forms, eng_front, eng_layouts], "assumptions": [SYNTH_NOTE, "Go's method-set rule (types.Implements) is go/types' and is not modelled"]},
     "C12": {"theorems": ["C12_fieldsof_accepts", "C12_fieldsof_pointer_iff", "C12_struct_needs_named_struct", "C12_check_field_sound", "C12_star_selects_unprevented", "C12_struct_provider_outputs"], "engines": [eng_prog, eng_forms, eng_layouts, eng_front],
             "assumptions": ["field names are ASCII; strconv.Quote and strings.EqualFold are modelled on ASCII identifiers", "FieldsOf name resolution shares checkField; its front end is exercised through the binary only"]},
     "C13": {"theorems": ["C13_ifacevalue_accepts", "C13_whitelist_sound", "C13_whitelist_complete", "C13_internal_package_rule"], "engines": [eng_valuetable, eng_forms, eng_copyprobe, eng_prog, eng_layouts, eng_multi, eng_front, eng_paths],
             "assumptions": ["expression trees are abstracted to the node kinds processValue distinguishes; the mapping from Go syntax to kinds is the table's (hand-written per form)",
                             "evaluation once at package initialisation is Go's semantics of package-level variables, not modelled"]},
-    "C14": {"theorems": ["C14_names_distinct", "C14_file_names_distinct", "C14_emitted_pass_names_fresh", "C14_invented_names_fresh", "C14_disambiguate_fresh", "C16_collision_order_independent"], "engines": [eng_prog, eng_multi, eng_layouts, eng_rename],
+    "C14": {"theorems": ["C14_names_distinct", "C14_file_names_distinct", "C14_emitted_pass_names_fresh", "C14_invented_names_fresh", "C14_disambiguate_fresh", "C16_collision_order_independent"], "engines": [eng_prog, eng_multi, eng_layouts, eng_rename, eng_copydecls],
             "assumptions": ["identifiers are ASCII in the model; non-ASCII names are outside the generated corpus"]},
     "C15": {"level_text": "Machine-checked proof in Coq 8.16.1 over an executable model tied to the code by a per-run correspondence; the copy is proved to be the identity for any complete table and the table is regenerated from copyAST each run; the renaming pass is modelled (Rename.v, tied by a hook that runs the real rewritePkgRefs) and proved never to capture; the qualification pass (package references) is exercised by the copy corpus and the layouts, not modelled (partial).", "theorems": ["C15_copy_identity", "C15_missing_field_is_lost", "C15_renaming_never_captures", "C15_layout_is_sections", "C15_copied_iff", "C15_copied_once", "C15_copied_in_source_order"], "engines": [eng_copyprobe, eng_copydecls, eng_rename, eng_seq],
             "assumptions": ["partial: the second (renaming) pass of rewritePkgRefs is modelled as a pass over the sequence of identifier occurrences (Rename.v, tied by the renameprobe hook); its first pass (package qualifiers) and Go's scoping of the copied declarations are exercised by the declaration corpus (structure + behaviour), not modelled",
